@@ -236,6 +236,13 @@ func c27Parent(scn string) CaseResult {
 	if dir == "" {
 		dir = os.TempDir()
 	}
+	// a directory of its own: re-runs of a failing case go in parallel
+	dir, derr := os.MkdirTemp(dir, "c27-"+scn+"-")
+	if derr != nil {
+		res.Capped = "scratch directory: " + derr.Error()
+		return res
+	}
+	defer os.RemoveAll(dir)
 	so, se := filepath.Join(dir, "c27-"+scn+".stdout"), filepath.Join(dir, "c27-"+scn+".stderr")
 	fo, _ := os.Create(so)
 	fe, _ := os.Create(se)
